@@ -15,11 +15,12 @@ pub fn exec(line: &str) -> String {
 }
 
 /// statement index that was executing when the device fault fired: re-run and watch `faulted`
-fn run_with_fault(prog: &Program, at: u64) -> (Run, Option<usize>, SimDev) {
+fn run_with_fault(prog: &Program, at: u64, interrupted: bool) -> (Run, Option<usize>, SimDev) {
     // execute statement by statement is not possible through `execute`; instead run whole programs
     // truncated after each statement and find the first truncation whose run faulted.
     let dev = SimDev::new(vec![]);
     dev.set_fault(Some(at));
+    dev.set_fault_interrupted(interrupted);
     let run = execute(prog, &dev);
     (run, None, dev)
 }
@@ -141,8 +142,16 @@ pub fn generate(sink: &mut Sink, seed: u64, thorough: bool) {
         let stride = if thorough || total_ops < 200 { 1 } else { (total_ops / 150).max(1) };
         let mut k = rng.below(stride);
         while k < total_ops {
+          // every position with a hard error; every third one also with a transient `Interrupted`
+          // error (std's write_all / read_exact / io::copy retry those: the call may then succeed,
+          // but whatever succeeds must still be stored completely)
+          for interrupted in [false, true] {
+            if interrupted && k % 3 != 0 {
+                continue;
+            }
             sink.oracle_evals += 1;
-            let (run, _, dev) = run_with_fault(&prog, k);
+            let (run, _, dev) = run_with_fault(&prog, k, interrupted);
+            let line = if interrupted { format!("{line} ## kind=interrupted") } else { line.clone() };
             if run.panicked || run.results.iter().any(|r| r == "panic") {
                 sink.fail("C16", "device/fault-panics", &format!("{line} ## fault_at={k}"), &format!("device fault at operation {k} made a library call panic"));
             } else if dev.faulted() {
@@ -152,7 +161,7 @@ pub fn generate(sink: &mut Sink, seed: u64, thorough: bool) {
                 let all_done = run.results.len() == ideal.results.len();
                 // the fault may have fired inside the final drop-flush (after all statements)
                 let during_drop = all_done && !any_err_new && run.results == ideal.results;
-                if !any_err_new && !during_drop {
+                if !any_err_new && !during_drop && !interrupted {
                     sink.fail("C16", "device/fault-swallowed", &format!("{line} ## fault_at={k}"), &format!("device fault at operation {k}: no library call returned an error ({:?})", run.results));
                 }
                 // finalize ok => complete file
@@ -169,6 +178,7 @@ pub fn generate(sink: &mut Sink, seed: u64, thorough: bool) {
                     sink.fail("C16", "device/drop-fault-changes-file", &format!("{line} ## fault_at={k}"), "a fault during the final drop changed the file");
                 }
             }
+          }
             k += stride;
         }
         // reader faults: every device op of a read session
